@@ -1052,3 +1052,41 @@ pub fn generate(ctx: &mut Ctx) {
         run_op(ctx, &format!("axissort {} {} {} {} {}", dim, coord, threads, n, join(&coords)).trim_end().to_string());
     }
 }
+
+#[cfg(test)]
+mod tests {
+    use super::*;
+
+    fn jag(parts: usize, maxiter: usize, dim: usize, ids: &[usize], coords: &[i64]) -> Option<bool> {
+        let root = parse_scheme(&coupe::verif::multi_jagged::partition_scheme(parts, maxiter)).unwrap();
+        let mut groups: std::collections::BTreeMap<usize, Vec<usize>> = Default::default();
+        for (p, &i) in ids.iter().enumerate() {
+            groups.entry(i).or_default().push(p);
+        }
+        let partsv: Vec<Part> = groups.into_values().map(|points| Part { points }).collect();
+        let mut j = Jag { dim, coords, steps: 0, budget: 1_000_000, ambiguous: false };
+        j.check(&root, 0, &partsv)
+    }
+
+    /// The oracle is not vacuous: it accepts jagged assignments and rejects others.
+    #[test]
+    fn jagged_oracle_discriminates() {
+        // one split along x: contiguous runs are accepted, interleaved parts are not
+        let line = [0, 0, 1, 1, 2, 2, 3, 3];
+        assert_eq!(jag(2, 1, 2, &[0, 0, 1, 1], &line), Some(true));
+        assert_eq!(jag(2, 1, 2, &[1, 1, 0, 0], &line), Some(true)); // ids are a renaming
+        assert_eq!(jag(2, 1, 2, &[0, 1, 0, 1], &line), Some(false));
+        // 2 x 2 scheme on 8 points: slabs by x, each cut by y
+        //   x: 0 1 2 3 | 4 5 6 7 ; y chosen so that the y-cut inside a slab is clean
+        let c = [0, 0, 1, 5, 2, 1, 3, 6, 4, 2, 5, 7, 6, 3, 7, 9];
+        assert_eq!(jag(4, 2, 2, &[0, 1, 0, 1, 2, 3, 2, 3], &c), Some(true));
+        // a part straddling the x-cut
+        assert_eq!(jag(4, 2, 2, &[0, 1, 0, 2, 1, 3, 2, 3], &c), Some(false));
+        // parts cut along x inside a slab instead of y (y ranges interleave)
+        assert_eq!(jag(4, 2, 2, &[0, 0, 1, 1, 2, 3, 2, 3], &c), Some(false));
+        // more parts than leaves
+        assert_eq!(jag(2, 1, 2, &[0, 1, 2, 2], &line), Some(false));
+        // empty slabs are fine (fewer parts than leaves)
+        assert_eq!(jag(4, 2, 2, &[0, 0, 0, 0, 0, 0, 0, 0], &c), Some(true));
+    }
+}
